@@ -171,9 +171,9 @@ func c19Spaces(c *fw.Ctx) {
 		})
 
 	// binary helpers: all ordered pairs over a pool chosen to share suffixes
-	poolN := 1400
+	poolN := 3000
 	if c.Thorough {
-		poolN = 5000
+		poolN = 8000
 	}
 	var pool []c19name
 	// interleave the two families so that both appear in the pool prefix
